@@ -96,7 +96,8 @@ def floors(tier):
             "observed.shortened_executed": 300, "observed.not_shrunk_out_of_range": 3000,
             "observed.cross_section_jumps": 1000, "observed.llvm_lines_compared": 100000,
             "observed.near_boundary_jumps": 200, "observed.two_code_images": 100,
-            "observed.shared_memory_pairs": 30, "observed.following_section_moved": 30}
+            "observed.shared_memory_pairs": 30, "observed.following_section_moved": 30,
+            "observed.cross_image_jumps": 300}
 
 
 # ---------------------------------------------------------------------------
@@ -945,6 +946,7 @@ def structural(case, plain, relaxed, mon):
                 rel.reloc_type, rel.section, rel.offset, wt, o, [(x.reloc_type, x.symbol_id) for x in hits]), case)
             return None
     # sites: designated addresses
+    image_of = {s.name: img.name for img in relaxed.images for s in img.sections}
     n_sites = 0
     for sec, ss in sites.items():
         su, sr = plain.get_section(sec), relaxed.get_section(sec)
@@ -999,6 +1001,8 @@ def structural(case, plain, relaxed, mon):
             if sym.section is not None and sym.section != sec and typ in INSN_TYPES and iu.mnemonic in (
                     "jal", "c.j", "c.jal", "beq", "bne", "c.beqz", "c.bnez"):
                 ob["cross_section_jumps"] += 1
+                if image_of.get(sym.section) != image_of.get(sec):
+                    ob["cross_image_jumps"] += 1
     ob["sites_checked"] += n_sites
     # a relaxable jump that stayed long although it was in range before relaxation is allowed (no verdict)
     # section addresses
@@ -1122,7 +1126,7 @@ class Mon:
                          "near_boundary_jumps": 0, "holes_per_section": {}, "sites_checked": 0,
                          "llvm_lines_compared": 0, "two_code_images": 0, "pairs_without_relaxation": 0,
                          "relaxed_link_raised": 0, "aimed_at_boundary": 0, "features": {},
-                         "shared_memory_pairs": 0, "following_section_moved": 0}
+                         "shared_memory_pairs": 0, "following_section_moved": 0, "cross_image_jumps": 0}
 
     def violation(self, summary, case):
         self.flagged = (case["kind"], case["index"])
